@@ -3679,6 +3679,12 @@ impl Zeroconf {
 
         let now = current_time_millis();
         if !repeating {
+            // Browsing a type again replaces the earlier search: drop its pending
+            // re-runs, or two query schedules would run side by side.
+            self.retransmissions.retain(
+                |rerun| !matches!(&rerun.command, Command::Browse(t, _, _, _) if t == &ty),
+            );
+
             // Binds a `listener` to querying mDNS domain type `ty`.
             //
             // If there is already a `listener`, it will be updated, i.e. overwritten.
